@@ -118,7 +118,7 @@ def decl_params(decl):
 
 def correspondence(inproc, lean_ok):
     """impl header of every expansion of the plain shape space == the model's header."""
-    items = GEN.all_items(kinds=("plain",))
+    items = [it for it in GEN.all_items(kinds=("plain",)) if not it[0].startswith("pos/")]   # (the header model is about the header grid)
     hdr = {h[0]: h for h in GEN.HEADERS}
     reqs = []
     for name, src in items:
